@@ -220,7 +220,8 @@ def refill (cfg : Cfg) (l : Ledger) (v2 : Bool) : Acc → List Txn → Acc
 def rebuild (cfg : Cfg) (p : Pool) : Pool :=
   let a1 := refill cfg p.led false ⟨MidState.empty, fun _ => none, 0, []⟩ (p.txns ++ p.lastReverted)
   let a2 := refill cfg p.led true { a1 with kept := [] } (p.v2txns ++ p.lastRevertedV2)
-  { p with txns := a1.kept, v2txns := a2.kept, indices := a2.idx, ms := some a2.ms, weight := a2.weight }
+  { p with txns := a1.kept, v2txns := a2.kept, indices := a2.idx, ms := some a2.ms, weight := a2.weight,
+           lastReverted := [], lastRevertedV2 := [] }   -- repaired: offered once (`:696-700`, `:717-718`)
 
 def revalidate (cfg : Cfg) (p : Pool) : Pool :=
   if p.ms.isSome && p.weight < cfg.maxWeight * 10 then p
